@@ -1,8 +1,13 @@
 //@unit sm2_ecc
 //@serves C03 C04 C05 C06 C11 C15 C19
 //@source gm-sm2/src/p256_ecc.rs
+//@tables sm2
 //@lean sm2_point_dbl sm2_point_add sm2_is_valid sm2_is_valid_affine sm2_to_affine
 //@assume Point::point_add / point_dbl: bodies are NOT verified by Verus against their group-law contracts; their formulas are checked by Lean obligations (ring identities generated from the real code); the case analysis connecting those identities to the contracts (infinity, h = 0, Montgomery decoding) is assumed
+//@assume rewrite: `for (i, x) in a.iter().enumerate()` over an array is the indexed loop `for i in 0..a.len() { let x = &a[i]; ...` (declared textual rewrite)
+//@assume ax_sm2_table: every entry of SM2P256_PRECOMPUTED is the Montgomery form of the affine point [j*256^i]G - discharged on every run by exhaustive ground evaluation (tools/check_tables.py), not by Verus
+//@rewrite-text for (index, scalar_word) in g.iter().enumerate() { ==> for index in 0..g.len() { let scalar_word = &g[index];
+//@rewrite-text (scalar_word >> (8 * m)) ==> (*scalar_word >> (8 * m))
 //@include-spec sm2_math
 //@section spec
 use core::fmt::Debug;
@@ -25,7 +30,7 @@ pub open spec fn sec1_decodes(b: Seq<u8>, q: Pt) -> bool {
         Pt::Inf => false,
         Pt::Aff { x, y } =>
             if b.len() == 33 { (b[0] == 2 || b[0] == 3) && x == be_val(b.subrange(1, 33)) && y % 2 == (b[0] as int - 2) && on_curve(q) }
-            else { b.len() == 65 && b[0] != 2 && b[0] != 3 && x == be_val(b.subrange(1, 33)) && y == be_val(b.subrange(33, 65)) },
+            else { b.len() == 65 && b[0] == 4 && x == be_val(b.subrange(1, 33)) && y == be_val(b.subrange(33, 65)) },
     }
 }
 //@section code gm-sm2/src/u256.rs
@@ -296,7 +301,7 @@ impl Point {
         }
         // uncompressed Point
         else {
-            if b.len() != 65 {
+            if flag != 0x04 || b.len() != 65 {
                 return Err(Sm2Error::InvalidPublic);
             }
             let x_raw = u256_from_be_bytes(&b[1..33]);
@@ -551,25 +556,59 @@ impl Point {
     }
 }
 
-#[verifier::external_body]
     fn g_mul(g: &U256) -> (r: Point)
     requires val4(g@) < N()   // carve-out for known finding D13
     ensures valid(r), abs(r) == g_smul(val4(g@), G())
     {
     let mut r = Point::zero();
     let num = 8;
-    for (index, scalar_word) in g.iter().enumerate() {
-        for m in 0..num {
-            let raw_index = ((scalar_word >> (8 * m)) & 0xff) as usize;
+    proof { ecc_g_on_curve(); }
+    for index in ito: 0..g.len()
+        invariant
+            num == 8, val4(g@) < N(), valid(r), on_curve(G()),
+            abs(r) == g_smul(ecc_lo(g@, 8 * ito.index@), G()),
+    { let scalar_word = &g[index];
+        for m in itm: 0..num
+            invariant
+                num == 8, val4(g@) < N(), valid(r), on_curve(G()), 0 <= index < 4, *scalar_word == g@[index as int],
+                abs(r) == g_smul(ecc_lo(g@, 8 * index + itm.index@), G()),
+        {
+            let ghost w = *scalar_word;
+            let ghost i = 8 * index as int + m as int;
+            let ghost lo = ecc_lo(g@, i);
+            proof {
+                let k = (8 * m) as u64;
+                assert(((w >> k) & 0xff) < 256) by(bit_vector);
+                assert(i / 8 == index as int && i % 8 == m as int);
+                assert(ecc_lo(g@, i + 1) == lo + ecc_byte(g@, i) * pow256(i));
+            }
+            let raw_index = ((*scalar_word >> (8 * m)) & 0xff) as usize;
+            let ghost t = raw_index as int * pow256(i);
+            proof {
+                assert(raw_index as int == ecc_byte(g@, i));
+                ecc_lo_bound(g@, i); ecc_lo_mono(g@, i + 1, 32); ecc_lo_32(g@);
+                if raw_index != 0 {
+                    ax_sm2_table(i, raw_index as int);
+                    assert(t >= pow256(i)) by(nonlinear_arith) requires t == raw_index as int * pow256(i), raw_index >= 1, pow256(i) > 0;
+                    lemma_smul_closed(t, G());
+                    ecc_no_d13(lo, t, G());
+                    lemma_smul_add(lo, t, G());
+                }
+            }
             if raw_index != 0 {
                 let a = to_jacobi(
                     &SM2P256_PRECOMPUTED[num * index + m][raw_index * 2 - 2],
                     &SM2P256_PRECOMPUTED[num * index + m][raw_index * 2 - 1],
                 );
+                proof {
+                    ecc_abs_z1(a.x@, a.y@, a.z@);
+                    assert(abs(a) == g_smul(t, G()));
+                }
                 r = r.point_add(&a);
             }
         }
     }
+    proof { ecc_lo_32(g@); }
     r
 }
 
@@ -601,6 +640,13 @@ proof fn ecc_consts()
     assert(canon(SM2_MODP_MONT_B@) && fe(SM2_MODP_MONT_B@) == CB()) by(compute);
     assert(P() > 3 && 0 < RINV_P() < P()) by(compute);
 }
+// ---------------------------------------------------------------- the fixed-base table (value hidden from the solver)
+#[verifier::external_body]
+proof fn ax_sm2_table(i: int, j: int)
+    requires 0 <= i < 32, 1 <= j <= 255
+    ensures canon(SM2P256_PRECOMPUTED[i][2 * j - 2]@), canon(SM2P256_PRECOMPUTED[i][2 * j - 1]@),
+        (Pt::Aff { x: fe(SM2P256_PRECOMPUTED[i][2 * j - 2]@), y: fe(SM2P256_PRECOMPUTED[i][2 * j - 1]@) }) == g_smul(j * pow256(i), G())
+{ }
 //@section spec
 // ---------------------------------------------------------------- arithmetic mod P()
 pub proof fn ecc_pos() ensures P() > 3, 0 < RINV_P() < P(), (r256() * RINV_P()) % P() == 1
@@ -1053,4 +1099,83 @@ pub proof fn ecc_acc_bound(hi: int, pw: int, t: int, w: int) requires 0 <= hi, 0
 {
     assert(hi * pw <= hi * 0x1_0000_0000_0000_0000int) by(nonlinear_arith) requires 0 <= hi, 0 < pw <= 0x1_0000_0000_0000_0000int;
     assert(0 <= hi * pw) by(nonlinear_arith) requires 0 <= hi, 0 < pw;
+}
+// ---------------------------------------------------------------- scalar bytes (8-bit comb, least significant first)
+pub open spec fn pow256(i: int) -> int decreases i { if i <= 0 { 1 } else { 256 * pow256(i - 1) } }
+// byte number i (0 = least significant) of a 4-limb little-endian scalar
+pub open spec fn ecc_byte(s: Seq<u64>, i: int) -> int { ((s[i / 8] >> ((8 * (i % 8)) as u64)) & 0xff) as int }
+// the value of the k least significant bytes
+pub open spec fn ecc_lo(s: Seq<u64>, k: int) -> int decreases k { if k <= 0 { 0 } else { ecc_lo(s, k - 1) + ecc_byte(s, k - 1) * pow256(k - 1) } }
+pub proof fn ecc_g_on_curve() ensures on_curve(G())
+{ lemma_params(); }
+pub proof fn ecc_pow256_pos(i: int) ensures pow256(i) > 0 decreases i
+{ if i > 0 { ecc_pow256_pos(i - 1); } }
+pub proof fn ecc_byte_range(s: Seq<u64>, i: int) ensures 0 <= ecc_byte(s, i) <= 255
+{
+    let w = s[i / 8]; let k = (8 * (i % 8)) as u64;
+    assert(((w >> k) & 0xff) <= 255) by(bit_vector);
+}
+pub proof fn ecc_lo_bound(s: Seq<u64>, k: int) requires 0 <= k ensures 0 <= ecc_lo(s, k) < pow256(k), pow256(k) > 0 decreases k
+{
+    ecc_pow256_pos(k);
+    if k > 0 {
+        ecc_lo_bound(s, k - 1);
+        ecc_byte_range(s, k - 1);
+        let b = ecc_byte(s, k - 1); let p = pow256(k - 1);
+        assert(0 <= b * p <= 255 * p) by(nonlinear_arith) requires 0 <= b <= 255, p > 0;
+    }
+}
+pub proof fn ecc_lo_mono(s: Seq<u64>, j: int, k: int) requires 0 <= j <= k ensures ecc_lo(s, j) <= ecc_lo(s, k) decreases k
+{
+    if j < k {
+        ecc_lo_mono(s, j, k - 1);
+        ecc_byte_range(s, k - 1); ecc_pow256_pos(k - 1);
+        let b = ecc_byte(s, k - 1); let p = pow256(k - 1);
+        assert(0 <= b * p) by(nonlinear_arith) requires 0 <= b, p > 0;
+    }
+}
+pub proof fn ecc_lo_step(p: int, v: int, b: int, c: int) ensures p * v + b * (c * p) == p * (v + c * b)
+{ assert(p * v + b * (c * p) == p * (v + c * b)) by(nonlinear_arith); }
+// the eight bytes of limb q
+pub proof fn ecc_lo_word(s: Seq<u64>, q: int) requires s.len() == 4, 0 <= q < 4
+    ensures ecc_lo(s, 8 * q + 8) == ecc_lo(s, 8 * q) + pow256(8 * q) * (s[q] as int)
+{
+    let w = s[q]; let p = pow256(8 * q); let n = 8 * q;
+    let b0 = ecc_byte(s, n); let b1 = ecc_byte(s, n + 1); let b2 = ecc_byte(s, n + 2); let b3 = ecc_byte(s, n + 3);
+    let b4 = ecc_byte(s, n + 4); let b5 = ecc_byte(s, n + 5); let b6 = ecc_byte(s, n + 6); let b7 = ecc_byte(s, n + 7);
+    assert(b0 == ((w >> 0u64) & 0xff) as int && b1 == ((w >> 8u64) & 0xff) as int && b2 == ((w >> 16u64) & 0xff) as int && b3 == ((w >> 24u64) & 0xff) as int);
+    assert(b4 == ((w >> 32u64) & 0xff) as int && b5 == ((w >> 40u64) & 0xff) as int && b6 == ((w >> 48u64) & 0xff) as int && b7 == ((w >> 56u64) & 0xff) as int);
+    assert(w == ((w >> 0u64) & 0xff) + 0x100 * ((w >> 8u64) & 0xff) + 0x1_0000 * ((w >> 16u64) & 0xff) + 0x100_0000 * ((w >> 24u64) & 0xff)
+        + 0x1_0000_0000 * ((w >> 32u64) & 0xff) + 0x100_0000_0000 * ((w >> 40u64) & 0xff) + 0x1_0000_0000_0000 * ((w >> 48u64) & 0xff) + 0x100_0000_0000_0000 * ((w >> 56u64) & 0xff)) by(bit_vector);
+    assert(pow256(n + 1) == 256 * p);
+    assert(pow256(n + 2) == 256 * pow256(n + 1));
+    assert(pow256(n + 3) == 256 * pow256(n + 2));
+    assert(pow256(n + 4) == 256 * pow256(n + 3));
+    assert(pow256(n + 5) == 256 * pow256(n + 4));
+    assert(pow256(n + 6) == 256 * pow256(n + 5));
+    assert(pow256(n + 7) == 256 * pow256(n + 6));
+    assert(ecc_lo(s, n + 1) == ecc_lo(s, n) + b0 * p);
+    assert(ecc_lo(s, n + 2) == ecc_lo(s, n + 1) + b1 * pow256(n + 1));
+    assert(ecc_lo(s, n + 3) == ecc_lo(s, n + 2) + b2 * pow256(n + 2));
+    assert(ecc_lo(s, n + 4) == ecc_lo(s, n + 3) + b3 * pow256(n + 3));
+    assert(ecc_lo(s, n + 5) == ecc_lo(s, n + 4) + b4 * pow256(n + 4));
+    assert(ecc_lo(s, n + 6) == ecc_lo(s, n + 5) + b5 * pow256(n + 5));
+    assert(ecc_lo(s, n + 7) == ecc_lo(s, n + 6) + b6 * pow256(n + 6));
+    assert(ecc_lo(s, n + 8) == ecc_lo(s, n + 7) + b7 * pow256(n + 7));
+    // Horner accumulation of the limb: v_t = the low t bytes of w
+    ecc_lo_step(p, 0, b0, 1);
+    ecc_lo_step(p, b0, b1, 0x100);
+    ecc_lo_step(p, b0 + 0x100 * b1, b2, 0x1_0000);
+    ecc_lo_step(p, b0 + 0x100 * b1 + 0x1_0000 * b2, b3, 0x100_0000);
+    ecc_lo_step(p, b0 + 0x100 * b1 + 0x1_0000 * b2 + 0x100_0000 * b3, b4, 0x1_0000_0000);
+    ecc_lo_step(p, b0 + 0x100 * b1 + 0x1_0000 * b2 + 0x100_0000 * b3 + 0x1_0000_0000 * b4, b5, 0x100_0000_0000);
+    ecc_lo_step(p, b0 + 0x100 * b1 + 0x1_0000 * b2 + 0x100_0000 * b3 + 0x1_0000_0000 * b4 + 0x100_0000_0000 * b5, b6, 0x1_0000_0000_0000);
+    ecc_lo_step(p, b0 + 0x100 * b1 + 0x1_0000 * b2 + 0x100_0000 * b3 + 0x1_0000_0000 * b4 + 0x100_0000_0000 * b5 + 0x1_0000_0000_0000 * b6, b7, 0x100_0000_0000_0000);
+    assert(ecc_lo(s, n + 4) == ecc_lo(s, n) + p * (b0 + 0x100 * b1 + 0x1_0000 * b2 + 0x100_0000 * b3));
+}
+pub proof fn ecc_lo_32(s: Seq<u64>) requires s.len() == 4 ensures ecc_lo(s, 32) == val4(s), ecc_lo(s, 0) == 0
+{
+    ecc_lo_word(s, 0); ecc_lo_word(s, 1); ecc_lo_word(s, 2); ecc_lo_word(s, 3);
+    assert(pow256(0) == 1 && pow256(8) == 0x1_0000_0000_0000_0000int && pow256(16) == 0x1_0000_0000_0000_0000int * 0x1_0000_0000_0000_0000int
+        && pow256(24) == 0x1_0000_0000_0000_0000int * 0x1_0000_0000_0000_0000int * 0x1_0000_0000_0000_0000int) by(compute);
 }
